@@ -345,6 +345,8 @@ def gen_history(rng, regs, n, scopes, depth=0, w=None, next_obj=None):
         rr = rng.random()
         if rr < 0.4:
           b['val'] = {'const': 'gin.REQUIRED'}
+          if rng.random() < 0.5:   # the same value written as the reference `%name` stands for, selector partial or complete
+            b['val']['_text'] = rng.choice(['@gin.REQUIRED/gin.constant()', '@gin.REQUIRED/constant()'])
         elif rr < 0.7:
           b['val'] = {'macro': rng.choice(['m1', 'm2'])}
         else:
